@@ -724,6 +724,123 @@ func runSpecial(cfg waitCfg) (res waitResult) {
 		res.Parked++
 		do(sig, s.SignalShutdown)
 		judge("PopOrWait was parked when SignalShutdown ran")
+	case "chain-stack-held":
+		// Waiter B's condition becomes true only through the completion of consumers A that were parked in
+		// PopOrWait. A helper PopOrWait whose wait condition blocks on a harness gate holds the stack mutex, so
+		// that the pushes and then B queue up on the mutex BEFORE the woken consumers: B sees the elements and parks.
+		k := 1 + cfg.Idx%2
+		t := 1
+		bName, bCall := "WaitIsEmpty", s.WaitIsEmpty
+		if cfg.Idx/2 == 1 {
+			t = k
+			bName, bCall = "WaitSizeIsBelow", func() { s.WaitSizeIsBelow(t) }
+		}
+		var acts []*gdump.Actor
+		mk := func(n string) *gdump.Actor { a := gdump.NewActor(n); acts = append(acts, a); return a }
+		defer func() {
+			for _, a := range acts {
+				a.Close()
+			}
+		}()
+		var cons []*gdump.Actor
+		for i := 0; i < k; i++ {
+			a := mk("consumer")
+			cons = append(cons, a)
+			if do(a, func() { s.PopOrWait(running.Load) }) != gdump.Blocked {
+				res.viol("stack/PopOrWait/returned-false-although-condition-true", "PopOrWait on an empty stack with a true condition returned")
+				return
+			}
+		}
+		gate := make(chan struct{})
+		holder := mk("mutex-holder")
+		holder.Start(func() { s.PopOrWait(func() bool { <-gate; return false }) })
+		waitQuiescent()
+		for i := 0; i < k; i++ {
+			i := i
+			mk("pusher").Start(func() { s.Push(i) })
+			waitQuiescent()
+		}
+		b := mk("waiterB")
+		b.Start(bCall)
+		waitQuiescent()
+		res.tr("%d consumer(s) parked in PopOrWait; helper holds the stack mutex inside its wait condition; %d Push and then %s queued on the mutex", k, k, bName)
+		close(gate)
+		waitQuiescent()
+		res.Checks++
+		for _, a := range cons {
+			if a.Busy() {
+				res.viol("stack/PopOrWait/parked-although-element-available", "a consumer is still parked in PopOrWait after %d Push for %d consumers", k, k)
+				return
+			}
+		}
+		if sz := s.Size(); sz >= t {
+			res.viol("stack/size-mismatch", "size %d after %d pushes and %d consumers", sz, k, k)
+		} else if b.Busy() {
+			res.viol("stack/"+bName+"/parked-although-condition-holds", "%s is parked for ever although the size is %d for good: the element(s) were removed by PopOrWait caller(s) that had been parked, which did not wake the size waiters", bName, sz)
+		} else {
+			res.Returned++
+		}
+	case "chain-stack-bfirst":
+		// other arrival order: B parked on a non-empty stack first, then the PopOrWait consumer arrives
+		bName, bCall := "WaitIsEmpty", s.WaitIsEmpty
+		if cfg.Idx%2 == 1 {
+			bName, bCall = "WaitSizeIsBelow", func() { s.WaitSizeIsBelow(1) }
+		}
+		s.Push(1)
+		b := gdump.NewActor("waiterB")
+		defer b.Close()
+		if do(b, bCall) != gdump.Blocked {
+			res.viol("stack/"+bName+"/returned-without-condition", "%s returned on a stack of size 1", bName)
+			return
+		}
+		res.Parked++
+		do(pop, func() { result(s.PopOrWait(running.Load)) })
+		waitQuiescent()
+		res.Checks++
+		if gotOK.Load() != 1 {
+			res.viol("stack/PopOrWait/parked-although-element-available", "PopOrWait on a stack of size 1 did not deliver the element")
+		} else if b.Busy() {
+			res.viol("stack/"+bName+"/parked-although-condition-holds", "%s is parked for ever although a PopOrWait caller emptied the stack", bName)
+		} else {
+			res.Returned++
+		}
+	case "chain-counter":
+		// A: WaitIsAbove(0) then Decrease; B: WaitIsZero. Idx 0: A parked first; Idx 1: B parked first.
+		c := syncutils.NewCounter()
+		a, b := gdump.NewActor("waiterA"), gdump.NewActor("waiterB")
+		defer a.Close()
+		defer b.Close()
+		gateA := make(chan struct{})
+		if cfg.Idx%2 == 0 {
+			a.Start(func() { c.WaitIsAbove(0); <-gateA; c.Decrease() })
+			waitQuiescent()
+			c.Increase()
+			waitQuiescent() // A woken, now held at the harness gate before its Decrease
+			if do(b, c.WaitIsZero) != gdump.Blocked {
+				res.viol("counter/WaitIsZero/returned-without-condition", "WaitIsZero returned at value 1")
+				return
+			}
+			res.Parked++
+			close(gateA)
+		} else {
+			c.Increase()
+			if do(b, c.WaitIsZero) != gdump.Blocked {
+				res.viol("counter/WaitIsZero/returned-without-condition", "WaitIsZero returned at value 1")
+				return
+			}
+			res.Parked++
+			close(gateA)
+			a.Start(func() { c.WaitIsAbove(0); <-gateA; c.Decrease() })
+		}
+		waitQuiescent()
+		res.Checks++
+		if a.Busy() {
+			res.viol("counter/WaitIsAbove/parked-although-condition-holds", "WaitIsAbove(0) is parked although the value was raised to 1")
+		} else if b.Busy() {
+			res.viol("counter/WaitIsZero/parked-although-condition-holds", "WaitIsZero is parked for ever although the woken WaitIsAbove waiter decremented the value to %d", c.Get())
+		} else {
+			res.Returned++
+		}
 	case "push-beats-condition":
 		st := do(pop, func() { result(s.PopOrWait(running.Load)) })
 		if st != gdump.Blocked {
